@@ -931,7 +931,15 @@ def N12_install(ctx):
             continue
         if not mentions_field(ins[0].d['value'], 'CommitLoopResult.committed'):
             bad.append(p)
-        if not (mentions_field(ret, 'CommitLoopResult.error')):
+        # the commit-loop error decides the return: Some(e) ⇒ Err(e); None ⇒ Ok(committed prefix end)
+        ef = [of for of in (option_fact(a) for a in p.events) if of and mentions_field(of[0], 'CommitLoopResult.error')]
+        if ef and ef[-1][1] == 'Some':
+            if not (ret[0] == 'agg' and ret[2] == 'Err' and mentions_field(ret, 'CommitLoopResult.error')):
+                bad.append(p)
+        elif ef and ef[-1][1] == 'None':
+            if not (ret[0] == 'agg' and ret[2] == 'Ok'):
+                bad.append(p)
+        elif not (mentions_field(ret, 'CommitLoopResult.error')):
             bad.append(p)
     ctx.ob('N12', f, 'outcomes-installed-once-before-error-return', n >= 1 and not bad,
            f'{len(bad)} path(s) deviate', site=f.loc(f.b['lo']),
